@@ -5,40 +5,59 @@
 (* error.  A query is abstracted to its statement shape and its topic references, each placed     *)
 (* before the 512-byte cut ("near"), across it ("straddle": only a fragment of the name is left   *)
 (* in the truncated text), after it ("far") or far after it ("vfar": beyond 64 KiB, so that any  *)
-(* other fixed truncation length is exercised as well).                                           *)
+(* other fixed truncation length is exercised as well).  Blank padding disappears in the           *)
+(* whitespace-normalised cache key, so a second dimension `wide` gives select / join statements a   *)
+(* projection of 1.5 KiB / 6 KiB / 80 KiB of non-blank text in front of the FROM clause: two such   *)
+(* statements are byte-identical up to that width and differ only in the topics after it.          *)
 EXTENDS Integers, Sequences, FiniteSets, TLC, Json
 CONSTANTS MaxQ, Acls, CacheModes, MaxEntries,
           FixFullText,           \* TRUE: authorisation and cache key use the full text (repaired); FALSE: the truncated text
-          DevCacheKeyTruncated   \* deviation: authorise on the full text but still key the cache by the truncated text
+          DevCacheKeyTruncated,  \* deviation: authorise on the full text but still key the cache by the truncated text
+          DevKeyCut,             \* deviation: the normalised cache key is cut to a fixed length: "none", or the smallest
+                                 \* width class ("w1" ~1 KiB, "w2" ~4 KiB, "w3" ~64 KiB) whose topics fall behind the cut
+          DevStarSkipsDeny,      \* deviation: allow=["*"] counts as "nothing to enforce", the deny list is not consulted
+          OnlyWide               \* TRUE: enumerate wide statements only (schedule generation)
 Topics == {"ta", "td"}
 AclDef(a) == CASE a = "allow" -> [allow |-> {"ta"}, deny |-> {}]
                [] a = "deny"  -> [allow |-> {}, deny |-> {"td"}]
                [] a = "both"  -> [allow |-> {"ta", "td"}, deny |-> {"td"}]
                [] a = "open"  -> [allow |-> {}, deny |-> {}]
-Singles == {[shape |-> s, t1 |-> t, t2 |-> "none", pos |-> "near"] : s \in {"select", "explain", "describe", "showparts"}, t \in Topics}
-Joins == {[shape |-> s, t1 |-> a, t2 |-> b, pos |-> p] : s \in {"join", "explainjoin"}, a \in Topics, b \in Topics, p \in {"near", "straddle", "far", "vfar"}}
-Others == {[shape |-> s, t1 |-> "none", t2 |-> "none", pos |-> "near"] : s \in {"showtopics", "set"}}
-Queries == Singles \cup Joins \cup Others
+               [] a = "stardeny" -> [allow |-> {"*"}, deny |-> {"td"}]
+Singles == {[shape |-> s, t1 |-> t, t2 |-> "none", pos |-> "near", wide |-> "w0"] : s \in {"select", "explain", "describe", "showparts"}, t \in Topics}
+Joins == {[shape |-> s, t1 |-> a, t2 |-> b, pos |-> p, wide |-> "w0"] : s \in {"join", "explainjoin"}, a \in Topics, b \in Topics, p \in {"near", "straddle", "far", "vfar"}}
+Others == {[shape |-> s, t1 |-> "none", t2 |-> "none", pos |-> "near", wide |-> "w0"] : s \in {"showtopics", "set"}}
+WideClasses == {"w1", "w2", "w3"}
+Rank(w) == CASE w = "w0" -> 0 [] w = "w1" -> 1 [] w = "w2" -> 2 [] w = "w3" -> 3 [] OTHER -> 9
+WideQs == {[shape |-> "select", t1 |-> a, t2 |-> "none", pos |-> "near", wide |-> w] : a \in Topics, w \in WideClasses}
+          \cup {[shape |-> "join", t1 |-> a, t2 |-> b, pos |-> "near", wide |-> w] : a \in Topics, b \in Topics, w \in WideClasses}
+Queries == IF OnlyWide THEN WideQs ELSE Singles \cup Joins \cup Others \cup WideQs
 
 VARIABLES acl, cacheOn, cache, n, last, hist
 vars == <<acl, cacheOn, cache, n, last, hist>>
-NoQ == [shape |-> "none", t1 |-> "none", t2 |-> "none", pos |-> "near"]
+NoQ == [shape |-> "none", t1 |-> "none", t2 |-> "none", pos |-> "near", wide |-> "w0"]
 Init == /\ acl \in Acls /\ cacheOn \in CacheModes /\ cache = <<>> /\ n = 0
         /\ last = [q |-> NoQ, fwd |-> FALSE] /\ hist = <<>>
 
 A == AclDef(acl)
-Allowed(t) == t \notin A.deny /\ (A.allow = {} \/ t \in A.allow)
-AllowShowTopics == A.deny = {} /\ A.allow = {}      \* no "*" pattern in the modelled ACLs
+Allowed(t) == t \notin A.deny /\ (A.allow = {} \/ "*" \in A.allow \/ t \in A.allow)
+AllowShowTopics == A.deny = {} /\ (A.allow = {} \/ "*" \in A.allow)
 TopicsOf(q) == {q.t1, q.t2} \ {"none"}              \* what the upstream reads when it executes the forwarded text
 OnFull == FixFullText \/ DevCacheKeyTruncated
 \* topics the proxy's parser finds in the text it authorises
 Vis(q) == IF OnFull \/ q.t2 = "none" \/ q.pos = "near" THEN TopicsOf(q)
           ELSE IF q.pos = "straddle" THEN {q.t1, "frag"} ELSE {q.t1}
-Key(q) == IF FixFullText /\ ~DevCacheKeyTruncated
-          THEN [s |-> q.shape, t1 |-> q.t1, t2 |-> q.t2]       \* whitespace-normalised full text
-          ELSE [s |-> q.shape, t1 |-> q.t1, t2 |-> IF q.pos = "near" THEN q.t2 ELSE IF q.pos = "straddle" THEN "straddle" ELSE "far"]
+\* the 512-byte prefix of a wide statement ends inside its projection: the proxy's parser finds no FROM clause
+ParseFails(q) == ~OnFull /\ q.wide # "w0"
+KeyCutHits(q) == DevKeyCut # "none" /\ q.wide # "w0" /\ Rank(q.wide) >= Rank(DevKeyCut)
+Key(q) == IF KeyCutHits(q) THEN [s |-> "cut", t1 |-> "cut", t2 |-> "cut", w |-> q.wide]      \* same first bytes whatever the topics
+          ELSE IF FixFullText /\ ~DevCacheKeyTruncated
+          THEN [s |-> q.shape, t1 |-> q.t1, t2 |-> q.t2, w |-> q.wide]       \* whitespace-normalised full text
+          ELSE [s |-> q.shape, t1 |-> q.t1, t2 |-> IF q.pos = "near" THEN q.t2 ELSE IF q.pos = "straddle" THEN "straddle" ELSE "far",
+                w |-> IF q.wide = "w0" THEN "w0" ELSE "wide"]
 Authorize(q) == IF q.shape = "set" THEN TRUE
                 ELSE IF A.allow = {} /\ A.deny = {} THEN TRUE
+                ELSE IF DevStarSkipsDeny /\ "*" \in A.allow THEN TRUE
+                ELSE IF ParseFails(q) THEN FALSE
                 ELSE IF q.shape = "showtopics" THEN AllowShowTopics
                 ELSE \A t \in Vis(q) : Allowed(t)
 Idx(k) == IF \E i \in 1..Len(cache) : cache[i].k = k THEN CHOOSE i \in 1..Len(cache) : cache[i].k = k ELSE 0
